@@ -4,12 +4,15 @@
    completes with the state and final-evaluation output of the uninterrupted run. *)
 From Coq Require Import ZArith List Bool Lia Sorting.Permutation.
 From FV Require Import Common.ListX Common.PySem Common.PyStr Common.AtomFS
-  gen.Gen_checkpoint gen.Gen_federated_experiment Model.C09_Model.
+  gen.Gen_checkpoint gen.Gen_federated_experiment gen.Gen_state_io Model.C09_Model.
 Import ListNotations.
 Local Open Scope Z_scope.
 
 Lemma str_eqb_spec a b : str_eqb a b = true <-> a = b.
 Proof. apply list_beq_eq. intros; apply Z.eqb_eq. Qed.
+
+Lemma In_firstn' {A} (x : A) : forall n l, In x (firstn n l) -> In x l.
+Proof. induction n as [|n IH]; intros [|y l] H; cbn in *; try tauto. destruct H; [now left|right; now apply IH]. Qed.
 
 (* ---- names ---------------------------------------------------------------- *)
 
@@ -91,7 +94,7 @@ Lemma tmp_neq p : tmp_path p <> p.
 Proof. unfold tmp_path. intros H. apply (f_equal (@length Z)) in H. rewrite app_length in H. cbn in H. lia. Qed.
 
 Lemma tsv_inj i j : tsv_name i = tsv_name j -> i = j.
-Proof. intros H. apply (f_equal (fun l => nth 1 l 0)) in H. unfold tsv_name in H. cbn [nth] in H. lia. Qed.
+Proof. intros H. apply (f_equal (fun l => nth 1 l 0)) in H. unfold tsv_name, metrics_file_name in H. cbn [nth app] in H. lia. Qed.
 
 Lemma last_opt_py_index {A} (l : list A) : l <> [] -> py_index l (-1) = last_opt l.
 Proof.
@@ -159,6 +162,21 @@ Definition Inv (d : dir) : Prop :=
 
 Lemma Inv_nil : Inv [].
 Proof. split; [constructor|]. intros n c H. discriminate. Qed.
+
+(* a directory the experiment may start from: no name passes the checkpoint filter (near misses are
+   allowed), no final-evaluation file is there yet *)
+Definition fresh (d : dir) : Prop :=
+  NoDup (names d) /\ (forall n, In n (names d) -> matched n = false) /\
+  (forall i, lookup d (tsv_name i) = None).
+
+Lemma fresh_nil : fresh [].
+Proof. split; [constructor|]. split; [intros n []|reflexivity]. Qed.
+
+Lemma Inv_fresh d : fresh d -> Inv d.
+Proof.
+  intros (Hn & Hm & _). split; [exact Hn|]. intros n c Hl Hmn.
+  apply (lookup_In str_eqb str_eqb_spec) in Hl. rewrite (Hm n Hl) in Hmn. discriminate.
+Qed.
 
 Definition harmless (e : ev) : Prop :=
   match e with
@@ -340,13 +358,13 @@ Qed.
 
 (* directories reachable from the empty experiment directory by calls killed anywhere *)
 Inductive reachable : dir -> Prop :=
-| reach_nil : reachable []
+| reach_fresh d : fresh d -> reachable d
 | reach_step d tr s r m : reachable d -> run step init save load tsv cf d = Some (tr, s, r) ->
     reachable (apply_evs d (firstn m tr)).
 
 Lemma reachable_inv d : reachable d -> Inv d.
 Proof.
-  induction 1 as [|d tr s r m _ IH Hrun]; [apply Inv_nil|].
+  induction 1 as [d Hf|d tr s r m _ IH Hrun]; [now apply Inv_fresh|].
   destruct (run_spec d IH) as (tr' & Hr' & Hpi & _). rewrite Hr' in Hrun. injection Hrun as <- _ _. apply Hpi.
 Qed.
 
@@ -598,7 +616,7 @@ Qed.
 (* ---- the final-evaluation files: absent, torn, or complete and correct -------------- *)
 
 Lemma ckpt_not_tsv x i : base ++ x <> tsv_name i.
-Proof. unfold base, checkpoint_prefix, tsv_name. cbn [app]. discriminate. Qed.
+Proof. unfold base, checkpoint_prefix, tsv_name, metrics_file_name. cbn [app]. discriminate. Qed.
 
 Definition tsvsafe (e : ev) : Prop :=
   match e with
@@ -679,7 +697,7 @@ Qed.
 
 Lemma reachable_tsv_ok d : reachable d -> tsv_ok d.
 Proof.
-  induction 1 as [|d tr s r m Hreach IH Hrun]; [intros i c H; discriminate|].
+  induction 1 as [d Hf|d tr s r m Hreach IH Hrun]; [intros i c H; destruct Hf as (_ & _ & Ht); rewrite Ht in H; discriminate|].
   destruct (run_spec d (reachable_inv d Hreach)) as (tr' & Hr' & _). rewrite Hr' in Hrun. injection Hrun as <- _ _.
   apply tsvsafe_prefix; [exact IH|]. apply (run_tsvsafe d). exact Hr'.
 Qed.
@@ -708,23 +726,119 @@ Lemma retention d tr s r : reachable d -> run step init save load tsv cf d = Som
     (ckpt_count (apply_evs d (firstn (Datatypes.S m) tr)) <= Z.to_nat (c_keep cf))%nat.
 Proof. intros Hr Hrun. apply (run_RT d tr s r); [apply (reachable_inv d Hr)|exact Hrun]. Qed.
 
-Lemma resume_equals_uninterrupted ks : exists ds tr df tr0 df0,
-  history step init save load tsv cf [] ks = Some (ds, tr, df, st R, R) /\
-  history step init save load tsv cf [] [] = Some ([], tr0, df0, st R, R) /\
+Lemma resume_equals_uninterrupted d0 ks : fresh d0 -> exists ds tr df tr0 df0,
+  history step init save load tsv cf d0 ks = Some (ds, tr, df, st R, R) /\
+  history step init save load tsv cf d0 [] = Some ([], tr0, df0, st R, R) /\
   forall i, (i < c_nev cf)%nat ->
     lookup df (tsv_name (Z.of_nat i)) = Some (Whole (tsv (Z.of_nat i) (st R) R)) /\
     lookup df0 (tsv_name (Z.of_nat i)) = lookup df (tsv_name (Z.of_nat i)).
 Proof.
-  destruct (history_spec ks [] Inv_nil) as (ds & tr & df & H & _ & _ & Ht).
-  destruct (history_spec [] [] Inv_nil) as (ds0 & tr0 & df0 & H0 & _ & _ & Ht0).
+  intros Hf. assert (Hi := Inv_fresh d0 Hf).
+  destruct (history_spec ks d0 Hi) as (ds & tr & df & H & _ & _ & Ht).
+  destruct (history_spec [] d0 Hi) as (ds0 & tr0 & df0 & H0 & _ & _ & Ht0).
   assert (ds0 = []) as ->.
-  { cbn [history] in H0. destruct (run step init save load tsv cf []) as [[[? ?] ?]|]; [|discriminate]. now injection H0. }
+  { cbn [history] in H0. destruct (run step init save load tsv cf d0) as [[[? ?] ?]|]; [|discriminate]. now injection H0. }
   exists ds, tr, df, tr0, df0. split; [exact H|]. split; [exact H0|].
-  intros i Hi. split; [now apply Ht|]. now rewrite Ht, Ht0.
+  intros i Hi'. split; [now apply Ht|]. now rewrite Ht, Ht0.
 Qed.
 
-Lemma history_dirs_reachable ks ds tr df s r :
-  history step init save load tsv cf [] ks = Some (ds, tr, df, s, r) -> Forall reachable ds /\ reachable df.
-Proof. apply history_reachable. constructor. Qed.
+Lemma history_dirs_reachable d0 ks ds tr df s r : fresh d0 ->
+  history step init save load tsv cf d0 ks = Some (ds, tr, df, s, r) -> Forall reachable ds /\ reachable df.
+Proof. intros Hf. apply history_reachable. now constructor. Qed.
+
+(* ---- files of somebody else are never touched ------------------------------------------ *)
+
+Definition foreign (n : str) : Prop :=
+  matched n = false /\ (forall r, n <> checkpoint_path base r) /\
+  (forall r, n <> tmp_path (checkpoint_path base r)) /\ (forall i, n <> tsv_name i).
+
+Definition keeps (n : str) (e : ev) : Prop :=
+  match e with
+  | ECr m | ECl m _ | ERm m => m <> n
+  | ERn a b => a <> n /\ b <> n
+  | _ => True
+  end.
+
+Lemma keeps_step n d e : keeps n e -> lookup (apply_ev d e) n = lookup d n.
+Proof.
+  intros H. destruct e; cbn [apply_ev fs_step AtomFS.apply keeps] in *; try reflexivity.
+  - rewrite (lookup_set str_eqb str_eqb_spec), (eqb_neq str_eqb str_eqb_spec) by exact H. reflexivity.
+  - rewrite (lookup_set str_eqb str_eqb_spec), (eqb_neq str_eqb str_eqb_spec) by exact H. reflexivity.
+  - destruct H as [Ha Hb]. destruct (lookup d a); [|reflexivity].
+    rewrite (lookup_set str_eqb str_eqb_spec), (eqb_neq str_eqb str_eqb_spec) by exact Hb.
+    rewrite (lookup_del str_eqb str_eqb_spec), (eqb_neq str_eqb str_eqb_spec) by exact Ha. reflexivity.
+  - rewrite (lookup_del str_eqb str_eqb_spec), (eqb_neq str_eqb str_eqb_spec) by exact H. reflexivity.
+Qed.
+
+Lemma keeps_prefix n es : forall d m, Forall (keeps n) es -> lookup (apply_evs d (firstn m es)) n = lookup d n.
+Proof.
+  induction es as [|e es IH]; intros d m H; [now rewrite firstn_nil|].
+  destruct m as [|m]; [reflexivity|]. inversion H; subst. cbn [firstn apply_evs fold_left].
+  fold (apply_evs (apply_ev d e) (firstn m es)). rewrite IH by assumption. now apply keeps_step.
+Qed.
+
+Lemma save_keeps n d s r evs : foreign n -> save_events save (c_keep cf) d s r = Some evs -> Forall (keeps n) evs.
+Proof.
+  intros (Hm & Hc & Ht & _). unfold save_events. rewrite gcp.
+  set (t := tmp_path (checkpoint_path base r)). set (d1 := apply_evs d _).
+  set (paths := sort_by keyf (filter matched (names d1))). set (X := remove_checkpoint_paths paths (c_keep cf)).
+  intros H.
+  assert (evs = [ECr t; EWr t; ECl t (save s); ERn t (checkpoint_path base r)] ++ [EGl] ++ map (@ERm B) X ++ [ESaved r])
+    as -> by (injection H as <-; reflexivity).
+  assert (Htn : t <> n) by (intros E; exact (Ht r (eq_sym E))).
+  assert (Hpn : checkpoint_path base r <> n) by (intros E; exact (Hc r (eq_sym E))).
+  apply Forall_app. split; [repeat constructor; assumption|].
+  constructor; [exact I|]. apply Forall_app. split; [|repeat constructor].
+  apply Forall_forall. intros e He. apply in_map_iff in He. destruct He as (x & <- & Hx). cbn [keeps].
+  intros ->. unfold X, remove_checkpoint_paths, py_upto in Hx.
+  assert (In n paths) as Hp by (destruct (0 <=? - c_keep cf); eapply In_firstn'; exact Hx).
+  apply sort_by_In, filter_In in Hp. destruct Hp as [_ Hp]. congruence.
+Qed.
+
+Lemma rounds_keeps n start : foreign n -> forall ks j d s tr s',
+  rounds step save cf start ks j d s = Some (tr, s') -> Forall (keeps n) tr.
+Proof.
+  intros Hf. induction ks as [|k ks IH]; intros j d s tr s' H; cbn [rounds] in H.
+  - injection H as <- _. constructor.
+  - destruct (if should_save_checkpoint (c_freq cf) k start then save_events save (c_keep cf) d (step s j) k else Some [])
+      as [sv|] eqn:Esv; [|discriminate].
+    set (e1 := ERound j :: sv ++ (if should_run_eval (c_evf cf) k start then [EPe k] else [])) in *.
+    destruct (rounds step save cf start ks (j + 1) (apply_evs d e1) (step s j)) as [[e2 s'']|] eqn:E2; [|discriminate].
+    assert (Htr : tr = e1 ++ e2) by (injection H as <- _; reflexivity). rewrite Htr. apply Forall_app. split; [|eapply IH; exact E2].
+    unfold e1. constructor; [exact I|]. apply Forall_app. split.
+    + destruct (should_save_checkpoint (c_freq cf) k start); [eapply save_keeps; [exact Hf|exact Esv]|injection Esv as <-; constructor].
+    + destruct (should_run_eval _ _ _); repeat constructor.
+Qed.
+
+Lemma run_keeps n d tr s r : foreign n -> run step init save load tsv cf d = Some (tr, s, r) -> Forall (keeps n) tr.
+Proof.
+  intros Hf. unfold run. destruct (load_latest_select base (names d)) as [sel|]; [|discriminate].
+  destruct (match sel with None => Some ([], init) | Some (p, _) => _ end) as [[rd s0]|] eqn:Erd; [|discriminate].
+  destruct (rounds step save cf _ _ _ d s0) as [[tr0 s1]|] eqn:Er; [|discriminate].
+  intros H. injection H as <- _ _.
+  assert (Forall (keeps n) rd) as Hrd.
+  { destruct sel as [[p ?]|]; [|injection Erd as <- _; constructor].
+    destruct (lookup d p) as [[b|]|]; try discriminate. injection Erd as <- _. repeat constructor. }
+  constructor; [exact I|]. constructor; [exact I|]. apply Forall_app. split; [exact Hrd|].
+  apply Forall_app. split; [eapply rounds_keeps; [exact Hf|exact Er]|].
+  destruct Hf as (_ & _ & _ & Hts).
+  unfold final_events. apply Forall_forall. intros e He. apply in_flat_map in He. destruct He as (i & _ & He).
+  cbn [In] in He. destruct He as [<-|[<-|[<-|[]]]]; cbn [keeps]; try exact I; intros E; exact (Hts _ (eq_sym E)).
+Qed.
+
+Lemma foreign_untouched n d tr s r m : foreign n -> run step init save load tsv cf d = Some (tr, s, r) ->
+  lookup (apply_evs d (firstn m tr)) n = lookup d n.
+Proof. intros Hf Hrun. apply keeps_prefix. eapply run_keeps; eassumption. Qed.
 
 End Proofs.
+
+Lemma state_io_anchored : save_state_is_plain_pickle = true /\ load_state_is_plain_unpickle = true.
+Proof. split; reflexivity. Qed.
+
+Lemma fresh_examples : @fresh (list Z) [] /\ @fresh (list Z) foreign_dir.
+Proof.
+  split; [apply fresh_nil|]. split; [|split].
+  - vm_compute. repeat constructor; cbn; intuition discriminate.
+  - intros n Hn. vm_compute in Hn. repeat (destruct Hn as [<-|Hn]; [reflexivity|]). destruct Hn.
+  - intros i. reflexivity.
+Qed.
